@@ -9,13 +9,20 @@ use crate::oracle::*;
 use serde_json::{Value, json};
 
 /// (name, expression, its type, lines it prints, how it ends the program)
-const EXPRS: [(&str, &str, &str, &str, &str); 34] = [
+const EXPRS: [(&str, &str, &str, &str, &str); 40] = [
     ("variable", "k", "int32", "", "ok"),
     ("literal", "7", "int32", "", "ok"),
     ("unit-literal", "()", "unit", "", "ok"),
     ("arithmetic", "k + 1", "int32", "", "ok"),
     ("division-ok", "k / one", "int32", "", "ok"),
     ("division-by-zero", "k / zero", "int32", "", "trap-div0"),
+    // the same with literal operands: a literal dividend does not make the division safe
+    ("literal-dividend-by-zero", "10 / zero", "int32", "", "trap-div0"),
+    ("zero-literal-dividend-by-zero", "0 / zero", "int32", "", "trap-div0"),
+    ("literal-dividend-ok", "10 / one", "int32", "", "ok"),
+    ("division-by-a-literal", "k / 2", "int32", "", "ok"),
+    ("literal-dividend-by-zero-inside-a-sum", "(10 / zero) + 1", "int32", "", "trap-div0"),
+    ("literal-dividend-by-zero-negated", "-(10 / zero)", "int32", "", "trap-div0"),
     ("comparison", "k < 2", "bool", "", "ok"),
     ("tuple", "(k, true)", "(int32, bool)", "", "ok"),
     ("projection", "pr.0", "int32", "", "ok"),
@@ -126,7 +133,7 @@ impl Family for Discard {
         &["C09", "C02", "C01"]
     }
     fn rule(&self) -> &'static str {
-        "34 expressions (variables, literals, arithmetic, a division that fails, tuples, projections, fields, constructors, closures, calls / method calls / closure calls that print, the builtins that are expanded in place: vec_get in and out of range, on a vector of units, nested; vec_len, vec_push, array_get, array_set, ref, ref_get, ref_set; if / match / && with a printing operand) x 14 positions in which the value is dropped (statement, let _, unused let, statement and tail of a while body, of an if branch, of a match arm, of a closure body, tail of a function whose result is dropped, unused tuple component, argument of a function that ignores it); plus 14 calls whose effect lies behind the called function (one and two callees down, in a cycle of two entered at either member, in a cycle of three, in a self-recursive function, a cell written in a callee and in a cycle, a failing read and a failing division in a callee, behind a function value, a method, a trait bound, a dyn call) x 3 orders of the functions (as listed, reversed, after main) x the 9 positions that take a value of any type; oracle: if accepted, the Go is valid, the stage IRs are consistent, and the program prints 'before', then what the expression prints, then fails as the expression fails or prints 'after' with the cell's value (a rejection with a diagnostic is a verdict, not a finding: the tail positions need a unit). non-trivial = expressions that print, write or fail; distinct = distinct source text"
+        "40 expressions (variables, literals, arithmetic, a division that fails - also with a literal dividend, inside a sum, negated -, tuples, projections, fields, constructors, closures, calls / method calls / closure calls that print, the builtins that are expanded in place: vec_get in and out of range, on a vector of units, nested; vec_len, vec_push, array_get, array_set, ref, ref_get, ref_set; if / match / && with a printing operand) x 14 positions in which the value is dropped (statement, let _, unused let, statement and tail of a while body, of an if branch, of a match arm, of a closure body, tail of a function whose result is dropped, unused tuple component, argument of a function that ignores it); plus 14 calls whose effect lies behind the called function (one and two callees down, in a cycle of two entered at either member, in a cycle of three, in a self-recursive function, a cell written in a callee and in a cycle, a failing read and a failing division in a callee, behind a function value, a method, a trait bound, a dyn call) x 3 orders of the functions (as listed, reversed, after main) x the 9 positions that take a value of any type; oracle: if accepted, the Go is valid, the stage IRs are consistent, and the program prints 'before', then what the expression prints, then fails as the expression fails or prints 'after' with the cell's value (a rejection with a diagnostic is a verdict, not a finding: the tail positions need a unit). non-trivial = expressions that print, write or fail; distinct = distinct source text"
     }
     fn cases(&self, _tier: Tier) -> Box<dyn Iterator<Item = Value> + '_> {
         let mut v = Vec::new();
